@@ -12,7 +12,8 @@ Three parts (DESIGN §4 C01):
 2. The theorems about the literal actions and split_string (coq/model/Pipeline.v,
    coq/proofs/PipelineProofs.v), the chain of the actual mirrors
    (coq/model/PipelineMirrors.v) with its composition theorem
-   C01_pipeline_mirrors_never_panic, and the generic assembly C01_pipeline_total.
+   C01_pipeline_mirrors_never_panic (the generic assembly over abstract stages, formerly the
+   obligation C01_pipeline_total, is a lemma of Proofs.PipelineProofs only since the third audit).
 3. run(ctx): engine `totality` — the real binary under a watchdog and an
    address-space limit on grammar-generated programs, byte-level mutants,
    arbitrary bytes and adversarial shapes, with all curves / levels / output
@@ -114,7 +115,70 @@ class Case:
 RUN_ENV = {"PATH": "/usr/bin:/bin", "RUST_BACKTRACE": "0", "HOME": "/tmp", "NO_COLOR": "1"}
 
 
-def run_case(binary, case, root, tag, watchdog=None):
+TRACE_ENV = {"RUST_LOG": "circomspect_program_structure::control_flow_graph::cfg=debug"}
+PHASE_START = re.compile(r"propagating (constant values|expression degrees) for `([^`]*)`")
+PHASE_ANY = re.compile(r"DEBUG circomspect_program_structure::control_flow_graph::cfg\s*> (propagating|computing variable use|"
+                       r"converting `|failed to propagate|basic block )")
+
+
+def run_traced(cmd, d, watchdog):
+    """Runs cmd with the tool's own debug log of cfg.rs switched on and stamps every log line with its arrival
+    time.  -> (rc, timed_out, stdout, stderr, phases) where phases lists, per definition and per time-boxed
+    phase (value / degree propagation), how long the phase lasted: from its `propagating ..` line to the next
+    log line of cfg.rs that is not part of it (`failed to propagate ..` is the box firing and ends the phase)."""
+    import threading
+    env = dict(RUN_ENV)
+    env.update(TRACE_ENV)
+    out_path = os.path.join(d, ".stdout")
+    t0 = time.time()
+    marks = []          # (t, kind, name) kind in value/degree/end/boxfired
+    err_tail = collections.deque(maxlen=60)
+    with open(out_path, "wb") as fo:
+        p = subprocess.Popen(cmd, cwd=d, env=env, stdin=subprocess.DEVNULL, stdout=fo, stderr=subprocess.PIPE)
+
+        def pump():
+            for raw in p.stderr:
+                now = time.time() - t0
+                line = raw.decode("utf-8", "replace")
+                m = PHASE_START.search(line)
+                if m:
+                    marks.append((now, "value" if m.group(1).startswith("constant") else "degree", m.group(2)))
+                elif PHASE_ANY.search(line):
+                    marks.append((now, "boxfired" if "failed to propagate" in line else "end", ""))
+                if " DEBUG " not in line[:12]:
+                    err_tail.append(line)
+        th = threading.Thread(target=pump, daemon=True)
+        th.start()
+        timed_out = False
+        try:
+            rc = p.wait(timeout=watchdog)
+        except subprocess.TimeoutExpired:
+            timed_out = True
+            p.kill()
+            p.wait()
+            rc = None
+        th.join(timeout=5)
+    end = time.time() - t0
+    phases = []
+    open_phase = None
+    for t, kind, name in marks + [(end, "end", "")]:
+        if open_phase and kind != "boxfired":
+            phases.append({"definition": open_phase[2], "phase": open_phase[1], "seconds": round(t - open_phase[0], 2),
+                           "box_fired": open_phase[3]})
+            open_phase = None
+        if kind in ("value", "degree"):
+            open_phase = [t, kind, name, False]
+        elif kind == "boxfired" and open_phase:
+            open_phase[3] = True
+    try:
+        out = open(out_path, "rb").read()
+        os.remove(out_path)
+    except OSError:
+        out = b""
+    return rc, timed_out, out, "".join(err_tail).encode("utf-8"), phases
+
+
+def run_case(binary, case, root, tag, watchdog=None, trace=False):
     d = os.path.join(root, str(tag))
     shutil.rmtree(d, ignore_errors=True)
     os.makedirs(d)
@@ -129,18 +193,24 @@ def run_case(binary, case, root, tag, watchdog=None):
     cmd = ["prlimit", "--as=%d" % AS_LIMIT, "--", binary] + list(case.argv)
     t0 = time.time()
     timed_out = False
-    try:
-        p = subprocess.run(cmd, cwd=d, env=RUN_ENV, stdin=subprocess.DEVNULL, stdout=subprocess.PIPE,
-                           stderr=subprocess.PIPE, timeout=watchdog or WATCHDOG_S)
-        rc, out, err = p.returncode, p.stdout, p.stderr
-    except subprocess.TimeoutExpired as e:
-        timed_out = True
-        rc, out, err = None, e.stdout or b"", e.stderr or b""
+    phases = None
+    if trace:
+        rc, timed_out, out, err, phases = run_traced(cmd, d, watchdog or WATCHDOG_S)
+    else:
+        try:
+            p = subprocess.run(cmd, cwd=d, env=RUN_ENV, stdin=subprocess.DEVNULL, stdout=subprocess.PIPE,
+                               stderr=subprocess.PIPE, timeout=watchdog or WATCHDOG_S)
+            rc, out, err = p.returncode, p.stdout, p.stderr
+        except subprocess.TimeoutExpired as e:
+            timed_out = True
+            rc, out, err = None, e.stdout or b"", e.stderr or b""
     wall = time.time() - t0
     out_t = out.decode("utf-8", "replace")
     err_t = err.decode("utf-8", "replace")
     res = {"rc": rc, "timed_out": timed_out, "wall": round(wall, 3), "stdout_tail": out_t[-600:],
            "stderr_tail": err_t[-900:], "dir": d}
+    if phases is not None:
+        res["phases"] = phases
     lines = [l for l in out_t.split("\n") if l.strip()]
     res["last_line"] = (lines[-1] if lines else "")[:200]
     res["analysed"] = out_t.count("circomspect: analyzing ")
@@ -279,6 +349,16 @@ def grammar_cases(ctx, n, counts, stats):
             files["lib/l.circom"] = grammargen.Gen(rng, 4).program(n_defs=2, with_main=False)
             argv = ["a.circom", "b.circom"] + (["-L", "lib"] if rng.random() < 0.5 else []) \
                 + (["nosuch.circom"] if rng.random() < 0.2 else [])
+            if rng.random() < 0.5:
+                # third audit: a name of a.circom is defined again in b.circom, as the same or as the OTHER kind
+                names = re.findall(r"\b(template|function)\s+([A-Za-z_][A-Za-z0-9_]*)", files["a.circom"])
+                if names:
+                    kind, nm = rng.choice(names)
+                    other = rng.choice(["template", "function", kind])
+                    files["b.circom"] += ("\n%s %s(%s) { %s }\n" % (
+                        other, nm, rng.choice(["", "q", "q, r"]),
+                        "return 1;" if other == "function" else "signal input i_; signal output o_; o_ <== i_;"))
+                    stats["cross_file_name_clashes"].append(kind + "/" + other)
         if rng.random() < 0.35:
             files = {k: grammargen.relex(v, rng) for k, v in files.items()}
         counts.update(g.counts)
@@ -813,6 +893,33 @@ def adversarial_cases(ctx, stats, thorough):
         for lv in LEVELS:
             for extra in ([], ["--verbose"], ["--sarif-file", "o.sarif"], ["--allow", "CS0005", "-a", "CS0013"]):
                 add("option-matrix", rich, ["t.circom", "--curve", c, "--level", lv] + extra)
+    # third audit: one name defined twice - every pairing of template / function (a clash BETWEEN the two kinds
+    # included: the merger keeps two maps and labels the earlier definition by looking the name up), in one file,
+    # in two files of the command line (both orders), in an included file, in a library directory, with and
+    # without a main component (program mode / library mode), with one, two and three definitions of the name
+    DEFS = {"template": "template %s() { signal input a; signal output b; b <== a; }\n",
+            "template-p": "template %s(n) { signal input a[n]; signal output b; b <-- a[0]; }\n",
+            "function": "function %s(u) { return u + 1; }\n",
+            "function-0": "function %s() { return 1; }\n"}
+    MAINS = {"none": "", "other": "template M() { signal input a; signal output b; b <== a; }\ncomponent main = M();\n",
+             "clash": "component main = N();\n"}
+    for k1 in DEFS:
+        for k2 in DEFS:
+            d1, d2 = DEFS[k1] % "N", DEFS[k2] % "N"
+            for mname, main in MAINS.items():
+                tag = "name-clash:%s/%s:main-%s" % (k1, k2, mname)
+                add(tag + ":one-file", "pragma circom 2.0.0;\n" + d1 + d2 + main)
+                add(tag + ":two-files", None, ["x.circom", "y.circom"],
+                    files={"x.circom": (d1 + main).encode(), "y.circom": d2.encode()})
+                add(tag + ":two-files-reversed", None, ["y.circom", "x.circom"],
+                    files={"x.circom": (d1 + main).encode(), "y.circom": d2.encode()})
+                add(tag + ":included", None, ["x.circom"],
+                    files={"x.circom": ('include "y.circom";\n' + d1 + main).encode(), "y.circom": d2.encode()})
+                add(tag + ":included-first-wins", None, ["x.circom"],
+                    files={"x.circom": ('include "y.circom";\n' + main + d1).encode(),
+                           "y.circom": ('include "z.circom";\n' + d2).encode(), "z.circom": (DEFS[k1] % "N").encode()})
+                add(tag + ":library", None, ["x.circom", "-L", "lib"],
+                    files={"x.circom": ('include "l.circom";\n' + d1 + main).encode(), "lib/l.circom": d2.encode()})
     for c in CURVES:
         add("option-matrix-dup-defs", None, ["a.circom", "b.circom", "--curve", c],
             files={"a.circom": rich.encode(), "b.circom": rich.encode()})
@@ -908,6 +1015,14 @@ LONG_DEFINITION = 128
 
 
 LONG_WATCHDOG_S = 300
+# the tool's own time box: MAX_ANALYSIS_DURATION of control_flow_graph/cfg.rs, as recorded when the known finding
+# C01-long-definition-time was written.  The current value is read from the source on every run
+# (panicsites.time_box()); a different value is reported.
+RECORDED_BOX_S = 10.0
+RECORDED_BOX_USES = 2
+# a phase ends at the first poll of the box after it expired; polls are one pass apart (milliseconds for the
+# definitions the engine feeds, measured 10.0 - 10.2 s per boxed phase on the witness); the slack absorbs load
+BOX_SLACK_S = 10.0
 
 
 def classify_cheap(ctx, case, res):
@@ -920,7 +1035,13 @@ def classify_cheap(ctx, case, res):
       address-space limit, AND nesting estimate > MODEST_DEPTH;
     C01-long-definition-time: time-out AND a definition with more than
       LONG_DEFINITION statements AND the run does end on its own with status
-      0/1 and a summary line under the long watchdog (checked by a re-run)."""
+      0/1 and a summary line under the long watchdog (checked by a re-run) AND,
+      third audit, in that re-run (the tool's own debug log of cfg.rs switched on,
+      every line stamped) NO SINGLE value- or degree-propagation phase of a
+      definition lasts longer than the tool's time box (RECORDED_BOX_S) plus
+      BOX_SLACK_S.  The mechanism the class names is "many definitions / phases,
+      each cut by its 10 s box, plus the unboxed passes"; a single propagation that
+      outlives its box is a failure of the box and NOT in the class."""
     ids = {k["id"]: k for k in ctx.known}
     deepest = max([nesting_depth(v) for v in case.files.values()] + [0])
     if res.get("panic") == "stack overflow" and res.get("rc") in (-6, -11) and deepest > MODEST_DEPTH:
@@ -936,10 +1057,25 @@ def classify_cheap(ctx, case, res):
 def classify_known(ctx, case, res, binary=None, root=None):
     k = classify_cheap(ctx, case, res)
     if k == "needs-long-run":
-        r = run_case(binary, case, root, "long-%d" % (id(case) % 100000), watchdog=LONG_WATCHDOG_S)
-        res["rerun_long_watchdog"] = {"rc": r["rc"], "wall": r["wall"], "last_line": r["last_line"], "timed_out": r["timed_out"]}
+        r = run_case(binary, case, root, "long-%d" % (id(case) % 100000), watchdog=LONG_WATCHDOG_S, trace=True)
+        phases = sorted(r.get("phases") or [], key=lambda p: -p["seconds"])
+        over = [p for p in phases if p["seconds"] > RECORDED_BOX_S + BOX_SLACK_S]
+        res["rerun_long_watchdog"] = {"rc": r["rc"], "wall": r["wall"], "last_line": r["last_line"], "timed_out": r["timed_out"],
+                                      "boxed_phases": len(phases), "longest_phases": phases[:3],
+                                      "phases_beyond_box_plus_slack": over[:3],
+                                      "phases_in_which_the_box_fired": sum(1 for p in phases if p["box_fired"])}
+        PHASE_STATS["long_reruns"] += 1
+        PHASE_STATS["boxed_phases_timed"] += len(phases)
+        PHASE_STATS["box_fired"] += sum(1 for p in phases if p["box_fired"])
+        PHASE_STATS["longest_phase_s"] = max([PHASE_STATS["longest_phase_s"]] + [p["seconds"] for p in phases])
+        if over:
+            PHASE_STATS["phases_beyond_box_plus_slack"] += len(over)
+            return None
         return None if judge(r) else {k2["id"]: k2 for k2 in ctx.known}["C01-long-definition-time"]
     return k
+
+
+PHASE_STATS = {"long_reruns": 0, "boxed_phases_timed": 0, "box_fired": 0, "longest_phase_s": 0.0, "phases_beyond_box_plus_slack": 0}
 
 
 # --------------------------------------------------------------------------
@@ -1110,6 +1246,11 @@ def run(ctx, proofs):
             small, r2 = c, r
         what = "circomspect (%s build) on a %d-byte input [%s]: %s (%d failing inputs with this signature)" % (
             bname, small.size(), c.kind, "; ".join(judge(r2) or bad), len(group))
+        over = (r.get("rerun_long_watchdog") or {}).get("phases_beyond_box_plus_slack")
+        if over:
+            what += ("; under the %d s watchdog a single %s-propagation phase of `%s` lasted %.1f s: the tool's own time box "
+                     "(%.0f s, + %.0f s slack) did not cut it, so the run is outside the known class C01-long-definition-time"
+                     % (LONG_WATCHDOG_S, over[0]["phase"], over[0]["definition"], over[0]["seconds"], RECORDED_BOX_S, BOX_SLACK_S))
         rep = {"input": small.to_json(), "original_size": c.size(), "build": bname, "impl": {
             "rc": r2["rc"], "timed_out": r2["timed_out"], "last_line": r2["last_line"], "stderr_tail": r2["stderr_tail"],
             "wall": r2["wall"], "rerun_long_watchdog": r.get("rerun_long_watchdog")},
@@ -1119,7 +1260,9 @@ def run(ctx, proofs):
             "other_inputs_same_signature": [g[1].kind for g in group[1:6]]}
         ctx.violation(what, rep)
 
-    # each known finding is replayed on its witness whether or not the search met it
+    # each known finding is replayed on its witness whether or not the search met it.  Third audit: a witness that
+    # fails but no longer falls into ANY recorded class (e.g. the long definition whose propagation outlives the
+    # tool's time box) is a failing input outside the known classes, reported as such
     def replay_known(k):
         w = k.get("witness") or {}
         if "shape" not in w:
@@ -1127,13 +1270,45 @@ def run(ctx, proofs):
         src = (NEST_SHAPES[w["shape"]](w["n"]) if w["shape"] in NEST_SHAPES else FLAT_SHAPES[w["shape"]](w["n"]))
         c = Case("known:" + k["id"], {"t.circom": src.encode()}, ["t.circom"], w["n"])
         r = run_case(debug_bin, c, os.path.join(root, "known"), k["id"])
-        kk = classify_known(ctx, c, r, debug_bin, os.path.join(root, "known-long-" + k["id"])) if judge(r) else None
-        return k if (kk and kk["id"] == k["id"]) else None
+        bad = judge(r)
+        kk = classify_known(ctx, c, r, debug_bin, os.path.join(root, "known-long-" + k["id"])) if bad else None
+        return k, c, r, bad, kk
+    witness_outcomes = {}
     with concurrent.futures.ThreadPoolExecutor(max_workers=4) as ex:
-        for k in ex.map(replay_known, ctx.known):
-            if k:
-                ctx.known_finding(k["id"], k["what"])
-                known_cases[k["id"]] += 1
+        for got in ex.map(replay_known, ctx.known):
+            if not got:
+                continue
+            k, c, r, bad, kk = got
+            witness_outcomes[k["id"]] = ("passes now" if not bad else "in class " + kk["id"] if kk else "fails outside every class")
+            if kk:
+                ctx.known_finding(kk["id"], kk["what"])
+                known_cases[kk["id"]] += 1
+            elif bad and len(ctx.violations) < 8:
+                lw = r.get("rerun_long_watchdog") or {}
+                over = lw.get("phases_beyond_box_plus_slack")
+                what = "circomspect (debug build) on the witness of the known finding %s (%d bytes): %s; the run is outside every " \
+                       "recorded class" % (k["id"], c.size(), "; ".join(bad))
+                if over:
+                    what += (": under the %d s watchdog a single %s-propagation phase of `%s` lasted %.1f s, the tool's own time "
+                             "box (%.0f s recorded, + %.0f s slack) did not cut it" % (LONG_WATCHDOG_S, over[0]["phase"],
+                             over[0]["definition"], over[0]["seconds"], RECORDED_BOX_S, BOX_SLACK_S))
+                ctx.violation(what, {"input": c.to_json(), "build": "debug", "impl": {
+                    "rc": r["rc"], "timed_out": r["timed_out"], "last_line": r["last_line"], "wall": r["wall"],
+                    "rerun_long_watchdog": lw}, "time_box_in_source": panicsites.time_box(),
+                    "spec": "exit status 0 or 1 after a summary line within %d s, or a failure inside a recorded class "
+                            "(for C01-long-definition-time: every propagation phase ends within the %.0f s box + %.0f s)"
+                            % (WATCHDOG_S, RECORDED_BOX_S, BOX_SLACK_S)})
+
+    # the tool's own time box is part of what C01 rests on: its value is read from the source on every run
+    tb = panicsites.time_box()
+    if tb["seconds"] != RECORDED_BOX_S or tb["uses"] != RECORDED_BOX_USES:
+        msg = ("MAX_ANALYSIS_DURATION (control_flow_graph/cfg.rs) reads %s s and is compared with an elapsed time in %d places; "
+               "recorded: %.0f s in %d places (value and degree propagation). The known class C01-long-definition-time and the "
+               "20 s watchdog are calibrated on the recorded value" % (tb["seconds"], tb["uses"], RECORDED_BOX_S, RECORDED_BOX_USES))
+        common.log(msg)
+        if not any("input" in v["replay"] for v in ctx.violations):
+            ctx.violation(msg, {"broken": "time box of cfg.rs", "time_box_in_source": tb,
+                                "recorded": {"seconds": RECORDED_BOX_S, "uses": RECORDED_BOX_USES}}, no_input=True)
 
     # stage `chain`: the per-definition chain of Model.PipelineMirrors, extracted, on every definition the real
     # parser + desugarer produce for the single-file sources of this run (and the programs of the liftfull
@@ -1225,6 +1400,13 @@ def run(ctx, proofs):
         "failing_signatures_outside_known_classes": {k: len(v) for k, v in seen.items()},
         "failing_inputs_in_known_class": dict(known_cases),
         "mutation_seeds": len(seeds), "timeouts_remeasured_alone": rerun_alone,
+        "cross_file_name_clashes_generated": dict(collections.Counter(stats["cross_file_name_clashes"])),
+        "name_clash_matrix_cases": sum(1 for c in cases if c.kind.startswith("adversarial:name-clash")),
+        "known_witness_outcomes": witness_outcomes,
+        "time_box": {"in_source": tb, "recorded_seconds": RECORDED_BOX_S, "slack_seconds": BOX_SLACK_S, **PHASE_STATS,
+                     "rule": "every time-out that is a candidate of C01-long-definition-time is re-run under the %d s watchdog "
+                             "with the debug log of cfg.rs on; each value / degree propagation phase of each definition is "
+                             "timed; a phase beyond box + slack takes the input out of the class" % LONG_WATCHDOG_S},
         "watchdog_s": WATCHDOG_S, "address_space_limit_bytes": AS_LIMIT,
         "modest_size": "<= %d bytes and syntactic nesting estimate <= %d" % (MODEST_BYTES, MODEST_DEPTH),
         "panic_sites": panicsites.summary(),
@@ -1252,8 +1434,9 @@ def run(ctx, proofs):
         "stmt_sugar_free / ast_init_flat / ast_init_ok of the real desugarer's output; wf_template of the parser's output is "
         "evaluated by C18's engine; that the SSA output has one defining assignment per local (C20's second premise, formerly "
         "the hypothesis ssa_output_ok) is proved (C01_chain_ssa_output_unique_local_defs) and still evaluated as a cross-check; "
-        "the analysis passes and the output stage are not part of the chain and remain premises of "
-        "C01_pipeline_total; the mirrors are tied to the code by the correspondence runs of their own properties and, by outcome "
+        "the analysis passes and the output stage are not part of the chain: no theorem covers them (the generic "
+        "assembly over abstract stages, formerly C01_pipeline_total, is no obligation any more), they are observed by the "
+        "engine and their syntactic panic sites are inventoried; the mirrors are tied to the code by the correspondence runs of their own properties and, by outcome "
         "class per definition, by the stage `chain`",
         "the panic-site scanner is syntactic (regular expressions over the source with test modules removed); "
         "macro-generated or trait-dispatched panics inside dependencies are outside the inventory",
